@@ -45,7 +45,7 @@ LOCAL_FINDINGS = {
 
 class C02(ProgCheck):
     pid = "C02"
-    proof_modules = ["BlocV.Proofs.C02"]
+    proof_modules = ["BlocV.Proofs.C02", "BlocV.Proofs.C02G"]
     rule = ("(a) node level: every unary/binary operator and ~45 built-ins x tuples of operand classes (integer, decimal, boolean, "
             "string, bytes, untyped null, typed nulls, tables of 1 and 2 dimensions, tuple) x operand source (variable = static "
             "type known, identity-function result = opaque): Expression::type() taken in parsing mode is compared with the "
@@ -56,7 +56,14 @@ class C02(ProgCheck):
             "of every generated program (and of token-damaged variants) is run by the model through Lex/Parse/Elab/Safety "
             "(`src`) and must give the answer of the S-expression rendering and of the library (outcome, output, variables, "
             "parse-error code); (e) `$` / for / forall constraint families against Model/Safety.lean (static pass and "
-            "storeVariable). distinct = expression + operand classes, resp. program text.")
+            "storeVariable). distinct = expression + operand classes, resp. program text. (g) translator tie (GENOPS): "
+            "extract/optypes.py regenerates lean/BlocV/Gen/OpTypes.lean from every op_*.{h,cpp} type()/value() and the "
+            "productions of parse_expression.cpp; BlocV.Proofs.C02G proves the hand model equal to the interpreted tables; "
+            "families gen-binop / gen-unop compare the interpreted tables themselves (driver words gop / gun) with the "
+            "library on every operator (both spellings) x every pair of operand classes: acceptance, static type, kind of "
+            "run-time outcome (value / INV_EXPRESSION / accessor error / boolean null); family gen-member: the receiver labels "
+            "extracted from member_*.cpp (driver word gmemb) against EXC_PARSE_MEMB_NOT_IMPL_S of the library for the six "
+            "member methods x every operand class.")
 
     def node_case(self, cid, model, expr_src, setup, meta):
         ops = ["new 0", "prog 0 " + hx(IDF)] + setup + ["expr 0 " + hx(expr_src + ";")]
@@ -64,6 +71,154 @@ class C02(ProgCheck):
         meta["node"] = True
         meta["expr"] = expr_src
         return Case(cid, model, "|".join(ops), meta)
+
+    # ------------------------------------------------------------------ GENOPS: translator tie for the operators
+    def gen_table_cases(self, kinds, n0, prefix="g"):
+        """every operator (every spelling) x every pair of operand classes: what the regenerated tables say (driver words
+        gop / gun) against Expression::type() / parse acceptance / evaluation in the library"""
+        def operand(v, slot, kind):
+            setup = ["set 0 %s %s" % (hx(slot.upper()), v)]
+            return (slot if kind == "var" else "idf(%s)" % slot), setup, (sty(v) if kind == "var" else "?0")
+        out = []
+        n = n0
+        for (opname, optext) in OPS + CMP + LOGIC:
+            for (t1, v1), (t2, v2) in itertools.product(VALS, VALS):
+                for k1, k2 in kinds:
+                    e1, s1, st1 = operand(v1, "x", k1)
+                    e2, s2, st2 = operand(v2, "y", k2)
+                    n += 1
+                    out.append(self.node_case("%s%d" % (prefix, n), "gop %s %s %s %s %s" % (opname, v1, v2, st1, st2), "%s %s %s" % (e1, optext, e2),
+                                              s1 + s2, {"family": "gen-binop", "st": [st1, st2]}))
+        for (opname, optext) in UNOPS + [("BNOT", "!")]:
+            for (t1, v1) in VALS:
+                for k1 in sorted(set(k for k, _ in kinds)):
+                    e1, s1, st1 = operand(v1, "x", k1)
+                    n += 1
+                    out.append(self.node_case("%s%d" % (prefix, n), "gun %s %s %s" % (opname, v1, st1), "%s(%s)" % (optext, e1), s1,
+                                              {"family": "gen-unop", "st": [st1]}))
+        # member methods, receiver side (Gen/MemberSigs.lean): arguments chosen to pass the argument checks where possible
+        for name, call in (("count", "x.count()"), ("at", "x.at(1)"), ("delete", "x.delete(1)"), ("put", "x.put(1, 65)"),
+                           ("insert", "x.insert(1, x)"), ("concat", "x.concat(x)")):
+            for (t1, v1) in VALS:
+                e1, s1, st1 = operand(v1, "x", "var")
+                n += 1
+                out.append(self.node_case("%s%d" % (prefix, n), "gmemb %s %s" % (name, st1), call, s1,
+                                          {"family": "gen-member", "st": [st1], "member": name}))
+        return out
+
+    ACC_CODES = ("7", "8", "9", "12", "13")     # EXC_RT_NOT_NUMERIC / INTEGER / BOOLEAN / LITERAL / TABCHAR
+
+    def judge_gen(self, c, iraw, m, stderr):
+        """the library against the INTERPRETED GENERATED TABLE (not the hand model): a disagreement means the extractor's
+        reading of the source is not what the compiled source does — or, after a source change, names the concrete
+        expression on which the library's behaviour moved"""
+        st = self.stats.setdefault("gen_tables", {"cases": 0, "perr": 0, "inv": 0, "acc": 0, "null": 0, "val": 0})
+        st["cases"] += 1
+        if iraw.startswith("crash") or iraw.endswith("diverges"):
+            return      # the twin case of the binop / unop family reports it
+        ev = iraw.split("|")[-1]
+        mout = m.get("model") or ""
+        if c.meta.get("family") == "gen-member":
+            mg = re.match(r"gen recv=(\S+) disp=(\S+) hrecv=(\S+)", mout)
+            if not mg:
+                return self.record_violation("unparsable answer of the generated-table interpreter", c, ev, m)
+            self.distinct.add((c.model_line, c.meta["expr"]))
+            st["member"] = st.get("member", 0) + 1
+            if mg.group(2) != "ok":
+                return      # the receiver does not reach the method (MemberExpression::parse refuses it first)
+            notimpl = ev.startswith("perr 17 ")
+            if mg.group(1) != mg.group(3):
+                # only possible while memberReceiver_eq_source does not check: the source moved; name the expression
+                return self.record_violation("`%s` with a receiver of static type %s: member_%s.cpp now says receiver %s, the model the theorems are "
+                                             "proved about says %s; the library answers %s" % (c.meta["expr"], c.meta["st"][0], c.meta["member"],
+                                                                                             mg.group(1), mg.group(3), ev), c, ev, m)
+            st["member_notimpl"] = st.get("member_notimpl", 0) + (1 if notimpl else 0)
+            if notimpl != (mg.group(1) == "notimpl"):
+                return self.record_violation("`%s` with a receiver of static type %s: the library answers %s; the receiver labels extracted from "
+                                             "member_%s.cpp say %s" % (c.meta["expr"], c.meta["st"][0], ev, c.meta["member"], mg.group(1)), c, ev, m)
+            return
+        mm = re.match(r"gen accept=(\S+) ty=(\S+) rt=(\S+) hacc=(\S+) hty=(\S+)", mout)
+        if not mm:
+            return self.record_violation("unparsable answer of the generated-table interpreter", c, ev, m)
+        acc, gty, grt, hacc, hty = mm.groups()
+        if (acc, gty) != (hacc, hty):
+            # only possible while BlocV.Proofs.C02G does not check (typeBin_eq_source / acceptBin_eq_source): the source moved.
+            # The proved model is the reference the C02 theorems are about: name the concrete expression.
+            st["hand_vs_source"] = st.get("hand_vs_source", 0) + 1
+            if not ev.startswith("perr") or hacc != "perr":
+                return self.record_violation("`%s` (static operand types %s): the operator's source now says accept=%s type=%s, the model the C02 "
+                                             "theorems are proved about says accept=%s type=%s; the library answers %s" % (
+                                                 c.meta["expr"], c.meta["st"], acc, gty, hacc, hty, ev), c, ev, m)
+        self.distinct.add((c.model_line, c.meta["expr"]))
+        expr = c.meta["expr"]
+        if ev.startswith("perr"):
+            st["perr"] += 1
+            if acc != "perr":
+                return self.record_violation("`%s` (static operand types %s) is rejected at compile time (%s); the operand checks extracted from "
+                                             "parse_expression.cpp accept it" % (expr, c.meta["st"], ev), c, ev, m)
+            return
+        if acc != "ok":
+            return self.record_violation("`%s` (static operand types %s) compiles; the operand checks extracted from parse_expression.cpp "
+                                         "reject it" % (expr, c.meta["st"]), c, ev, m)
+        me = re.match(r"ty=(\S+) (.*)$", ev)
+        if not me:
+            return self.record_violation("unparsable answer", c, ev, m)
+        static, rest = me.group(1), me.group(2)
+        if static.split("{")[0].split("#")[0] != gty.split("#")[0]:
+            return self.record_violation("`%s` (static operand types %s): Expression::type() is %s, the type() chain extracted from the "
+                                         "operator's source gives %s" % (expr, c.meta["st"], static, gty), c, ev, m)
+        got = rest.split(" rt=")[0]
+        kind = ("inv" if got == "rerr 5" else
+                "acc" if got.startswith("rerr ") and got.split()[1] in self.ACC_CODES else
+                "null" if got == "ok N:b0" else "val")
+        st[kind] += 1
+        if grt == "val" and kind == "null":
+            kind = "val"      # a boolean null computed by a cell (null and true) is a value of that cell
+        if grt == "null" and kind != "null" or grt in ("inv", "acc") and kind != grt or grt == "val" and kind in ("inv", "acc"):
+            return self.record_violation("`%s` with operands %s evaluates to %s; the case labels extracted from the operator's value() "
+                                         "predict %s" % (expr, " ".join(c.model_line.split()[2:4]), got, grt), c, got, m)
+
+    def step_proofs(self):
+        """as Check.step_proofs; when BlocV.Proofs.C02G stops checking (a regenerated table moved), name the theorems"""
+        from .. import build
+        ok = ProgCheck.step_proofs(self)
+        if any("C02G" in b for b in self.broken_ties):
+            okm, out = build.lean_build(["BlocV.Proofs.C02G"])
+            named = []
+            for mo in re.finditer(r"error: \S*(Proofs/C02G|Proofs/Lemmas/GenOps)\.lean:(\d+):\d+: ([^\n]*)", out):
+                src = open(build.LEAN + "/BlocV/" + mo.group(1) + ".lean").read().split("\n")
+                ln = int(mo.group(2))
+                th = ("BlocV.C02G." if mo.group(1).endswith("C02G") else "BlocV.GenOps.") + next((re.match(r"\s*theorem\s+(\S+)", src[k]).group(1) for k in range(min(ln, len(src)) - 1, -1, -1)
+                           if re.match(r"\s*(theorem|example)\b", src[k]) and re.match(r"\s*theorem\s+(\S+)", src[k])), "?")
+                if th not in named:
+                    named.append(th)
+            for th in named:
+                self.broken_ties.insert(0, "theorem %s%s no longer checks against the tables regenerated from the C++ source "
+                                           "(generated files that changed: %s)" % (th, "" if th.startswith("BlocV.C02G.") else " (lemma of BlocV.Proofs.C02G)",
+                                                                                   self.stats.get("gen_changed")))
+        return ok
+
+    def search_failing_input(self):
+        """a tie broke and the families of this run found no failing input: compare the regenerated tables AND the hand model
+        with the library on the exhaustive matrix — every operator x every pair of operand classes x {typed variable, opaque}"""
+        from .. import build, run
+        kinds = [("var", "var"), ("tmp", "var"), ("var", "tmp"), ("tmp", "tmp")]
+        cases = self.gen_table_cases(kinds, 0, prefix="s")
+        try:
+            hbin = build.harness_build(self.harness)
+        except build.BuildError:
+            return None
+        impl = run.run_harness(hbin, ["%s %s" % (c.cid, c.impl_line) for c in cases], timeout_s=self.case_timeout())
+        model = run.run_driver(["%s %s" % (c.cid, c.model_line) for c in cases])
+        from ..core import parse_model
+        for c in cases:
+            self.evaluations += 1
+            iraw = impl.get(c.cid)
+            if iraw is None:
+                continue
+            self.judge_gen(c, iraw, parse_model(model.get(c.cid, "")), "")
+        self.stats["search"] = {"matrix_cases": len(cases), "violations": len(self.violations)}
+        return None
 
     def gen_cases(self):
         quick = self.tier == "quick"
@@ -91,6 +246,10 @@ class C02(ProgCheck):
                     e1, s1, st1 = operand(v1, "x", k1)
                     n += 1
                     cases.append(self.node_case("c%d" % n, "un %s %s %s" % (opname, v1, st1), "%s(%s)" % (optext, e1), s1, {"family": "unop", "st": [st1]}))
+        # (g) GENOPS: the regenerated tables (Gen/OpTypes.lean, interpreted by Model/GenEval.lean) against the library
+        for c in self.gen_table_cases([("var", "var"), ("tmp", "tmp")] if quick else kinds, n):
+            cases.append(c)
+        n += len([c for c in cases if c.meta.get("family", "").startswith("gen-")])
         for f in BUILTINS:
             for (t1, v1) in VALS:
                 for k1 in ("var", "tmp"):
@@ -207,6 +366,8 @@ class C02(ProgCheck):
             return ProgCheck.judge(self, c, iraw, m, stderr)
         if fam and fam.startswith("fe"):
             return self.judge_fe_family(fam, c, iraw, m, stderr)
+        if fam in ("gen-binop", "gen-unop", "gen-member"):
+            return self.judge_gen(c, iraw, m, stderr)
         if iraw.startswith("crash") or iraw.endswith("diverges"):
             self.tally(c, iraw, m)
             kf = self.crash_kf(c, iraw, stderr)
